@@ -222,6 +222,12 @@ class DoomedGen:
                               ('set-size-too-big', {'set_size': 65536}), ('seqnum-above-set-size', {'set_size': 1, 'seqnum': 2})))
         return _finish({'op': 'bad_new', 'kw': kw}, 'new-arguments:' + cause, True, 'new-arguments')
 
+    def bad_open(self):
+        """At the next restart of the history the new object is first handed a damaged copy of the image (cut short, or with
+        its descriptor set zeroed from some sector on); what it parsed before refusing must not colour the real open."""
+        r = self.r
+        return _finish({'op': 'bad_open', 'cut': r.choice((0.3, 0.5, 0.8, 0.95)), 'how': r.choice(('truncate', 'zero-tail'))}, 'open:damaged-image-first', True, 'open-arguments')
+
     def depth(self):
         m, r = self.m, self.r
         if m.rr or m.cfg['level'] == 4:
@@ -552,7 +558,7 @@ class DoomedGen:
         op['progress_raise_at'] = r.choice((1, 2, 3, 5, 10))
         return _finish(op, 'io-fault:progress_cb-raises-in-write_fp', True, 'io-fault')
 
-    GENS = ('bad_iso_file_name', 'bad_iso_dir_name', 'joliet_too_long', 'udf_too_long', 'rr_too_long', 'symlink_other_namespace_taken', 'rm_dir_partly_nonempty', 'udf_symlink_component_too_long', 'bad_new',
+    GENS = ('bad_iso_file_name', 'bad_iso_dir_name', 'joliet_too_long', 'udf_too_long', 'rr_too_long', 'symlink_other_namespace_taken', 'rm_dir_partly_nonempty', 'udf_symlink_component_too_long', 'bad_new', 'bad_open',
             'depth', 'duplicate', 'duplicate', 'duplicate', 'missing_parent',
             'missing_parent', 'wrong_type_rm', 'wrong_type_rm', 'eltorito_protected', 'wrong_extension', 'bad_boot', 'bad_hybrid', 'bad_relocated_name', 'link_to_directory', 'removed_name', 'removed_name', 'state',
             'io_fault_boot', 'io_fault_write')
